@@ -1,3 +1,4 @@
 //! Per-property checks live in `src/bin/cXX.rs`; helpers shared by several
 //! checks live here.
+pub mod crashsim;
 pub mod hist;
